@@ -217,16 +217,8 @@ def run(facts, rep, tier, ctx):
     # NotSupported and nothing else (shared with C12 R12.3c / C18 R18.1)
     for b_ in facts.bodies:
         if b_.trait_item_of and b_.trait_item_of.rsplit("::", 1)[-1] in ("FileSystem", "AsyncFileSystem") and b_.name in FIELD_OF:
-            kinds_ = set()
-            calls_ = []
-            for cb_ in D.inter.code_bodies(b_):
-                for blk_ in cb_.blocks:
-                    if blk_.cleanup:
-                        continue
-                    for st_ in blk_.stmts:
-                        if st_.kind == "assign" and st_.rv.kind == "agg" and st_.rv.agg.get("adt") == "error::VfsErrorKind":
-                            kinds_.add(st_.rv.agg["variant"])
-                calls_ += [s_.short for s_ in D.inter.sites(cb_) if s_.short not in ("From::from", "Into::into", "Pin::new", "Box::pin", "Box::new")]
+            kinds_, calls_ = D.inter.kinds_and_calls(b_)
+            calls_ = [c_ for c_ in calls_ if c_ not in ("From::from", "Into::into", "Pin::new", "Box::pin", "Box::new")]
             okd_ = kinds_ == {"NotSupported"} and not [c for c in calls_ if not c.startswith(("Pin::", "Box::", "future::", "Future::", "ready"))]
             rep.ob("R19.4d", b_.id, "provided %s only answers NotSupported" % b_.name, okd_, "" if okd_ else
                    "the trait default of %s builds %s / calls %s: a backend without time stamps reports success (or another error) "
@@ -261,6 +253,13 @@ def run(facts, rep, tier, ctx):
                                    "" if ok4 else "%s re-times an entry with %s: a time stamp that was set and reported is replaced by an "
                                    "operation that is not a setter" % (b4.name, n4), s4.line)
         rep.floor("setter call sites inside the adapters (%s)" % w4.tag, k4, 6)
+    # R19.6 content reaches the file when it is written, not when the handle goes away: the physical backends hand out the std handle
+    # itself (a BufWriter around it flushes at drop — after a set_modification_time made in between — and moves the time to "now")
+    from . import c14 as _c14h, c05 as _c05p
+    from .c10 import _Prefixed as _Pf19
+    for w6 in (ws, World(facts, True)):
+        if w6.present():
+            _c14h.handed_out(facts, _c05p._P5(rep if not w6.asyncw else _Pf19(rep, "A"), "R19.6"), w6, D)
     # R19.5 appending keeps the entry (and with it its creation time) until the writer publishes: append_file neither
     # rewrites the stored entry nor goes through create_file
     from . import c01 as _c01
